@@ -128,6 +128,8 @@ def allowed_paths(s):
     o = s["opts"]
     al = set()
     outs = []
+    if o.get("dry"):
+        return set(), set()         # under --dry-run the intended set is empty
     for x in s["secs"]:
         moved = x["kind"] in ("rename", "copy")
         src, dst = (x["newpath"], x["path"]) if (moved and o.get("R")) else (x["path"], x["newpath"])
@@ -336,6 +338,22 @@ def refusal_scenarios(rng, n):
                 s["opts"]["f"] = 1          # --batch together with --force: --batch still decides
         s["refusal"] = kind
         scns.append(s)
+    # the Prereq: word in front of a later patch of a series of git patches for one file (the earlier ones are applied but not yet
+    # written): --batch still ends the run there, and nothing of the series reaches the file
+    for _ in range(max(4, n // 6)):
+        lines0 = [("%s %d" % (gen.rand_text(rng, True), i_), "L") for i_ in range(rng.randint(8, 12))]
+        cur = list(lines0); text = b""; k = rng.choice([2, 3]); at = rng.randint(1, k - 1)
+        for j_, i_ in enumerate(sorted(rng.sample(range(1, len(lines0) - 1), k))):
+            ops = [(" ", l) for l in cur]; ops[i_] = ("-", cur[i_]); ops.insert(i_ + 1, ("+", (cur[i_][0] + "x", "L")))
+            if j_ == at:
+                text += b"Prereq: no-such-version-string\n"
+            text += emit.emit_git("f", "f", gen.hunks_from_ops(ops, 1), kind="change")
+            cur = [l for o_, l in ops if o_ != "-"]
+        o = {"p": 1, "i": "p.diff", "t": 1}
+        if rng.random() < 0.4:
+            o["b"] = 1
+        sec = dict(path="f", newpath="f", kind="change", fmt="git", hs=[], a=lines0, b=cur, text=text, ops=[], mode_old=None, mode_new=None, w=1)
+        scns.append(dict(tree={"f": ("R", rng.choice([0o644, 0o600, 0o755]), emit.file_bytes(lines0)), "p.diff": ("R", 0o644, text)}, opts=o, umask=0o022, secs=[sec], refusal="prereq-series"))
     return scns
 
 
@@ -389,7 +407,7 @@ def history_runs(run_, exe, rng, n, prop):
         kinds = ["change", "change", "change", "add", "delete"] if prop == "C05" else ["change"]
         if prop == "C05" and rng.random() < 0.3:
             kinds = ["rename", "change", "add", "delete"]
-        s = scen.gen_scenario(rng, kinds=kinds, opts=rng.choice([{}, {}, {"nl": "keep"}]), drift=0)
+        s = scen.gen_scenario(rng, kinds=kinds, opts=rng.choice([{}, {}, {"nl": "keep"}] + ([{"posix": 1}] if prop == "C06" else [])), drift=0)
         if prop == "C06" and rng.random() < 0.4:
             # the first application itself depends on a matching option (-l on a target whose blanks differ, -F 3 on a target
             # whose outer context drifted); the re-run carries the same option
@@ -422,6 +440,9 @@ def history_runs(run_, exe, rng, n, prop):
                 x["b"] = [(l_.decode("latin-1"), "L") for l_ in extra.split(b"\n")[:-1]] + list(x["b"])
                 x["hs"] = [dict(h_, os=h_["os"] + extra.count(b"\n"), ns=h_["ns"] + extra.count(b"\n")) for h_ in x["hs"]]
             s["how"] = "offset"
+        if prop == "C05" and rng.random() < 0.15:
+            # diffs without context that add in front of line 1 or remove the first lines of a file that stays
+            s = scen.base_scenario(rng, [scen.top_section(rng, p_, rng.choice(["git", "git", "unified"]), rng.choice(["add-top", "del-top"])) for p_ in rng.sample(["u0", "ud/u0"], rng.choice([1, 2]))], opts={})
         if prop == "C05" and rng.random() < 0.15:
             s = scen.dir_stream_scenario(rng)
         if prop == "C05" and rng.random() < 0.25:
@@ -517,6 +538,8 @@ def history_runs(run_, exe, rng, n, prop):
                 fmt = "unified"
             sec = scen.section(rng, rng.choice(["c", "cd/c"]), kind=kind, fmt=fmt, nonl=False)
             o = {"R": 1} if how != "add" else {}
+            if how == "R-change" and rng.random() < 0.4:
+                o["posix"] = 1          # (POSIX mode: the guess is made all the same, -R or not)
             s = scen.base_scenario(rng, [sec], opts=o)
             if how != "add":
                 t_ = scen.expected_tree(s)
@@ -616,7 +639,7 @@ def run(prop, tier, seed):
                             scen.add_parents(s0["tree"], rp)
                             s0["tree"][rp] = ("R", 0o644, b"--- old\n+++ old\n@@ -1 +1 @@\n-left by\n+an earlier run\n@@ -7 +7 @@\n-second\n+hunk\n")
             # targets that have to be refused, with and without --dry-run, -r, -o
-            rs = [s0 for s0 in refusal_scenarios(rng, n // 3) if s0["refusal"] != "prereq"]      # (a missing Prereq under --batch aborts the run)
+            rs = [s0 for s0 in refusal_scenarios(rng, n // 3) if not s0["refusal"].startswith("prereq")]      # (a missing Prereq under --batch aborts the run)
             for s0 in rs:
                 s0["opts"].update(rng.choice([{}, {"dry": 1}, {"dry": 1}, {"r": "rejects.txt"}, {"dry": 1, "r": "rejects.txt"}, {"o": "outfile"}, {"dry": 1, "o": "outfile"}]))
                 if rng.random() < 0.4:
@@ -670,6 +693,32 @@ def run(prop, tier, seed):
                 return None
             _, b8, _ = l2_family(run_, exe, full, judge_full, cls=lambda s, r: "/dev/full exit %d" % r["exit"], compare=False)
             bad += b8
+            # a read of the target or of the patch file that fails part way (files larger than a stdio buffer, EIO on each read in
+            # turn): the run either says so with status 2 or is the undisturbed run -- a short reading is not the end of the file,
+            # its hunks are neither "applied" to a truncated target (status 0) nor "rejected" (status 1)
+            import faults, concurrent.futures
+            a_ = [("line %04d %s" % (i_, "x" * 20), "L") for i_ in range(420)]
+            ops_ = [(" ", l_) for l_ in a_]
+            for at_ in (380, 30):
+                ops_[at_] = ("-", a_[at_]); ops_.insert(at_ + 1, ("+", ("changed line %d" % at_, "L")))
+            hs_ = gen.hunks_from_ops(ops_, 3)
+            bigs = dict(tree={"big": ("R", 0o644, emit.file_bytes(a_)), "p.diff": ("R", 0o644, emit.emit_unified("a/big", "b/big", hs_))},
+                        opts={"p": 1, "i": "p.diff"}, umask=0o022, secs=[])
+            base_b = run_many(exe, [bigs], strace="read,openat", timeout=30)[0]
+            rjobs = [k_ for name_, k_, line_ in faults.relevant_calls(base_b.get("trace", []), ["read"])]
+            if not q:
+                rjobs = rjobs + rjobs
+            with concurrent.futures.ThreadPoolExecutor(max_workers=12) as ex:
+                rres = list(ex.map(lambda k_: l2.run_impl(exe, bigs, strace="read,openat", inject="read:error=EIO:when=%d" % k_, timeout=30), rjobs))
+            for k_, r_ in zip(rjobs, rres):
+                run_.count("C04 read fault %d" % k_, True, "read fault -> exit %d" % r_["exit"])
+                same = r_["exit"] == base_b["exit"] and tree_no_meta(r_["tree"]) == tree_no_meta(base_b["tree"])
+                if r_["exit"] != 2 and not same:
+                    bad.append((0, "read #%d of the run fails with EIO: exit status %d (%s), the target has %d bytes (undisturbed run: exit %d, %d bytes)" %
+                                (k_, r_["exit"], (r_["stdout"].decode("latin-1").strip().splitlines() or [""])[-1][:80], len(tree_no_meta(r_["tree"]).get("big", (0, 0, b""))[2]),
+                                 base_b["exit"], len(tree_no_meta(base_b["tree"])["big"][2])),
+                                dict(scenario=describe(bigs), inject="read:error=EIO:when=%d" % k_, impl=dict(exit=r_["exit"], stdout=r_["stdout"].decode("latin-1")[-600:], stderr=r_["stderr"].decode("latin-1")[-300:]))))
+            run_.cov["read_fault_schedules"] = len(rjobs)
         elif prop == "C15":
             scns = scenarios_for(prop, rng, n)
             res, b2, m2 = l2_family(run_, exe, scns, judge_dry, cls=lambda s, r: "dry exit %d" % r["exit"], with_mtime=True)
@@ -949,6 +998,27 @@ def run(prop, tier, seed):
             bad += b6; mism += m6
             _, b2, m2 = l2_family(run_, exe, scns, judge_c18, cls=lambda s, r: "backup opts " + ",".join(sorted(k for k in s["opts"] if k in ("b", "B", "z", "posix", "bim", "N"))))
             bad += b2; mism += m2
+            # -R on the new version (every hunk fits exactly): a backup only when -b asks for one, and then of the new version
+            rev = []
+            for _ in range(n // 4):
+                sec = scen.section(rng, rng.choice(["r", "rd/r"]), kind="change", fmt=rng.choice(["unified", "context", "git"]), nonl=False)
+                o = dict(rng.choice([{"R": 1}, {"R": 1}, {"R": 1, "posix": 1}, {"R": 1, "bim": 0}, {"R": 1, "b": 1}, {"R": 1, "N": 1}, {"R": 1, "b": 1, "z": ".bak"}]))
+                s0 = scen.base_scenario(rng, [sec], opts=o)
+                t_ = scen.expected_tree(dict(s0, opts={k_: v_ for k_, v_ in s0["opts"].items() if k_ != "R"}))
+                s0["tree"] = {p_: (k_, m_, d_) for p_, (k_, m_, d_) in t_.items()}
+                rev.append(s0)
+            def judge_rev(s, r):
+                after = tree_no_meta(r["tree"]); p_ = s["secs"][0]["path"]; bn = backup_name(s["opts"], p_)
+                if r["exit"] != 0:
+                    return None
+                if s["opts"].get("b"):
+                    if bn not in after or after[bn][2] != s["tree"][p_][2]:
+                        return "-R -b: the backup %s does not hold what %s held before the run" % (bn, p_)
+                elif bn in after:
+                    return "-R without -b, every hunk fitting exactly: the backup %s was created although none was due" % bn
+                return None
+            _, b7, m7 = l2_family(run_, exe, rev, judge_rev, cls=lambda s, r: "-R exit %d" % r["exit"])
+            bad += b7; mism += m7
         import wide
         wb, wm = wide.wide_family(run_, exe, rng, 300 if q else 4000, prop=prop)
         bad += wb; mism += wm
